@@ -536,7 +536,7 @@ func init() {
 				freshResult(c, fr, fn, 0, nil, nil, "is a deep copy")
 				noWrites(c, fr, fn, nil, "its receiver and arguments")
 			}
-			tri := ruleTriX(c, inFiles("graph_dense.go"), "TRI", true)
+			tri := ruleTriX(c, filesOf(c, "graph.NewDense", "T:graph.DenseGraph"), "TRI", true)
 			tri.MinInst = 5
 			return []*RuleResult{cp, fr, tri, ruleRows(c), ruleEdgeByte(c, "graph"), ruleRegrow(c, "graph")}
 		},
@@ -554,7 +554,7 @@ func init() {
 	})
 	register(&propDef{
 		id:          "C06",
-		explanation: "Decides: FRESH (the graphs returned by NewDense and NewSparse reach no memory of the caller's edges / neighbourhoods slices, so later writes by the caller cannot change them), LITERAL (every DenseGraph/SparseGraph composite literal in the module that sets the adjacency field also sets NumberOfVertices, NumberOfEdges and DegreeSequence), EDGEBYTE (transformations and encoders never use the numeric value of an input graph's adjacency byte), VIEW (the methods of the live complement / induced-subgraph views write nothing reachable from the view: no cache to go stale), OWNER (no function other than SparseGraph's own edit methods writes the fields of an existing SparseGraph, whether received as a parameter or obtained from a constructor call, so decoders cannot bypass the row invariants), TRI (every hand-written index into packed-triangle storage in the generators, transformations, decoders and the search is a lower-triangle cell: closed form with 0<=I<J proved for all accepted parameter values when the operands are locally controlled, running index, or linear sweep), DEGSYNC (an edge recorded at cell (I,J) is counted into the returned degree sequence at exactly the entries I and J), COUNTS (hand-filled NumberOfEdges >= 0 and degrees within [0,n-1] for every accepted argument), IRREFLEXIVE (no IsEdge implementation can be true for i == j), REGROW (graph storage grown in place into spare capacity is initialised up to its new length), and classifies each constructor as counted-by-construction or hand-filled. Does not decide that each named family has exactly the edges of its definition.",
+		explanation: "Decides: FRESH (the graphs returned by NewDense and NewSparse reach no memory of the caller's edges / neighbourhoods slices, so later writes by the caller cannot change them), LITERAL (every DenseGraph/SparseGraph composite literal in the module that sets the adjacency field also sets NumberOfVertices, NumberOfEdges and DegreeSequence), EDGEBYTE (transformations and encoders never use the numeric value of an input graph's adjacency byte), VIEW (the methods of the live complement / induced-subgraph views write nothing reachable from the view: no cache to go stale), OWNER (no function other than SparseGraph's own edit methods writes the fields of an existing SparseGraph, whether received as a parameter or obtained from a constructor call, so decoders cannot bypass the row invariants; likewise for DenseGraph: only its edit methods and the search iterator, which owns the graph it extends in place, write an existing DenseGraph, so a generator that sets adjacency bytes and bumps the counts of a graph another constructor returned is reported), TRI (every hand-written index into packed-triangle storage in the generators, transformations, decoders and the search is a lower-triangle cell: closed form with 0<=I<J proved for all accepted parameter values when the operands are locally controlled, running index, or linear sweep), DEGSYNC (an edge recorded at cell (I,J) is counted into the returned degree sequence at exactly the entries I and J), COUNTS (hand-filled NumberOfEdges >= 0 and degrees within [0,n-1] for every accepted argument), IRREFLEXIVE (no IsEdge implementation can be true for i == j), REGROW (graph storage grown in place into spare capacity is initialised up to its new length), and classifies each constructor as counted-by-construction or hand-filled. Does not decide that each named family has exactly the edges of its definition.",
 		notDecided:  []string{"that each named family has exactly the edges its definition prescribes", "full agreement of hand-filled counts with adjacency (CompleteGraph, CompletePartiteGraph, Path, Star, Cycle, ComplementDense): only their range (COUNTS) and the pairing of counted edges (DEGSYNC) are decided"},
 		assumptions: []string{"vertex numbers passed as parameters are non-negative", "data-derived operands (Pruefer code elements, Multicode bytes, neighbour lists, part sizes) satisfy their range preconditions (recorded, not judged)"},
 		run: func(c *Ctx, tier string) []*RuleResult {
@@ -565,10 +565,19 @@ func init() {
 			freshResult(c, fr, ns, 0, nil, nil, "does not alias the caller's slices")
 			noWrites(c, fr, nd, nil, "its arguments")
 			noWrites(c, fr, ns, nil, "its arguments")
-			tri := ruleTri(c, func(file string) bool { return filepath.Base(file) != "graph_dense.go" }, "TRI")
+			denseFiles := filesOf(c, "graph.NewDense", "T:graph.DenseGraph")
+			tri := ruleTri(c, func(file string) bool { return !denseFiles(file) }, "TRI")
 			tri.MinInst = 8
 			own := ruleOwner(c, "graph", "SparseGraph", []string{"(*graph.SparseGraph).AddVertex", "(*graph.SparseGraph).RemoveVertex", "(*graph.SparseGraph).AddEdge", "(*graph.SparseGraph).RemoveEdge"})
 			own.MinInst = 4
+			// the same for DenseGraph; the search iterator owns the preallocated graph it edits in place
+			od := ruleOwner(c, "graph", "DenseGraph", []string{"(*graph.DenseGraph).AddVertex", "(*graph.DenseGraph).RemoveVertex", "(*graph.DenseGraph).AddEdge", "(*graph.DenseGraph).RemoveEdge", "(*graph/search.GraphIterator).Next", "graph/search.WithPruning", "graph/search.Load"})
+			od.MinInst = 4
+			own.Findings = append(own.Findings, od.Findings...)
+			own.Undecided = append(own.Undecided, od.Undecided...)
+			own.Instances = append(own.Instances, od.Instances...)
+			own.Obligations += od.Obligations
+			own.Discharged += od.Discharged
 			vw := &RuleResult{Rule: "VIEW", Doc: "the live views (complement, inducedSubgraph) derive every observer from the underlying graph on every call: their methods write nothing reachable from the view, so no cached answer can go stale when the underlying graph is edited", MinInst: 10}
 			for _, n := range []string{"N", "M", "IsEdge", "Neighbours", "Degrees"} {
 				for _, t := range []string{"complement", "inducedSubgraph"} {
@@ -869,4 +878,33 @@ func ruleOwner(c *Ctx, pkgRel, typeName string, methods []string) *RuleResult {
 		r.find(name+":writes "+typeName+" directly", c.instrPos(badIn), "%s writes a field of an existing %s (%s) itself instead of going through %v: the rows' invariants (sorted, duplicate-free, loop-free, symmetric) and the cached counts are only maintained by those methods", name, typeName, instrDesc(c, badIn), methods)
 	}
 	return r
+}
+
+// filesOf: the files that hold the named functions, or the methods of the named types ("T:" +
+// package-relative type, e.g. "T:graph.DenseGraph"), as they are today: a scope that follows
+// renamed and split files because it is anchored in symbols.
+func filesOf(c *Ctx, anchors ...string) func(string) bool {
+	files := map[string]bool{}
+	for _, a := range anchors {
+		if strings.HasPrefix(a, "T:") {
+			want := strings.TrimPrefix(a, "T:")
+			for _, fn := range c.Funcs {
+				if fn.Synthetic != "" || fn.Signature.Recv() == nil {
+					continue
+				}
+				rt := fn.Signature.Recv().Type()
+				if p, ok := rt.Underlying().(*types.Pointer); ok {
+					rt = p.Elem()
+				}
+				if n, ok := rt.(*types.Named); ok && n.Obj().Pkg() != nil && strings.TrimPrefix(n.Obj().Pkg().Path(), c.Mod+"/")+"."+n.Obj().Name() == want {
+					files[c.Fset.Position(fn.Pos()).Filename] = true
+				}
+			}
+			continue
+		}
+		if fn := c.FnOpt(a); fn != nil {
+			files[c.Fset.Position(fn.Pos()).Filename] = true
+		}
+	}
+	return func(file string) bool { return files[file] }
 }
